@@ -81,6 +81,8 @@ package trend
 //@ attr refinement = checked
 //@ pure
 //@ ensures result >= 0
+//@ ensures istype(self, "trend.Sma") ==> result == as(self, "trend.Sma").Period - 1
+//@ ensures istype(self, "trend.Ema") ==> result == as(self, "trend.Ema").Period - 1
 //@ func interface Ma.String
 //@ pure
 //@ func interface Ma.Compute
@@ -90,6 +92,8 @@ package trend
 //@ ensures[C03] consumed(p0) == len(p0) && closed(result)
 //@ ensures[C04] forall kk :: 0 <= kk && kk < len(result) ==> hor(result, kk) <= hor(p0, kk + self.IdlePeriod())
 //@ offers[C15] "positivity" posma(self) && (forall j :: 0 <= j && j < len(p0) ==> p0[j] >= 0) ==> (forall k :: 0 <= k && k < len(result) ==> result[k] >= 0)
+//@ offers[C01] "sma-value" istype(self, "trend.Sma") ==> (forall k :: 0 <= k && k < len(result) ==> result[k] == smaS(p0, as(self, "trend.Sma").Period)[k])
+//@ offers[C01] "ema-value" istype(self, "trend.Ema") ==> (forall k :: 0 <= k && k < len(result) ==> result[k] == emaS(p0, as(self, "trend.Ema").Period, as(self, "trend.Ema").Smoothing / (as(self, "trend.Ema").Period + 1), k))
 
 //@ func MovingMax.Compute
 //@ requires m.Period >= 1 && consumed(c) == 0
